@@ -111,6 +111,7 @@ pub fn c14_wg(ctx: &mut Ctx, log: &mut Log, im: &mut Impl, or: &mut Oracle) {
         ex(log, im, &format!("g.new {n}"));
         let mut alive: Vec<usize> = (0..n).collect();
         let mut last_pending_wakes: Option<usize> = None;
+        let mut last_poller: Option<(bool, usize)> = None;   // (second waker?, its wake count at that poll)
         let len = 1 + rng.usize_below(10);
         for step in 0..len + n + 1 {
             let do_poll = alive.is_empty() || rng.chance(1, 2) || step >= len;
@@ -120,23 +121,29 @@ pub fn c14_wg(ctx: &mut Ctx, log: &mut Log, im: &mut Impl, or: &mut Oracle) {
                 let o = ex(log, im, &format!("g.pollh {point} {t}"));
                 let w: usize = field(&o, "wakes").and_then(|x| x.parse().ok()).unwrap_or(0);
                 if field(&o, "hook") == Some("fired") { alive.retain(|&x| x != t); or.count(&format!("hooked_drop_at_point_{point}")); }
-                if o.starts_with("ready") { if !alive.is_empty() { or.fail(format!("shutdown future completed while {} token(s) are alive", alive.len()), log.replay_block(), "C14:early-completion".into()); } last_pending_wakes = None; }
+                if o.starts_with("ready") { if !alive.is_empty() { or.fail(format!("shutdown future completed while {} token(s) are alive", alive.len()), log.replay_block(), "C14:early-completion".into()); } last_pending_wakes = None; last_poller = None; }
                 else {
                     // Pending: if that drop was the last one, the task must have been woken for the completion (by the poll's own temporary Arc going away)
                     if alive.is_empty() && w <= last_pending_wakes.unwrap_or(0) && w == 0 { or.fail(format!("the last token was dropped inside the poll (point {point}) which returned Pending, and the task was never woken"), log.replay_block(), "C14:lost-wake-in-window".into()); }
                     if alive.is_empty() { let before = last_pending_wakes.unwrap_or(0); if w <= before { or.fail(format!("last drop in the window at point {point}: no wake-up after the registration"), log.replay_block(), "C14:lost-wake-in-window".into()); } }
                     last_pending_wakes = Some(w);
+                    let wb: usize = field(&o, "wb").and_then(|x| x.parse().ok()).unwrap_or(0); last_poller = Some((false, w - wb));
                 }
             } else if do_poll && (step < len || alive.is_empty()) {
-                let o = ex(log, im, "g.poll");
+                // the future may be polled by different tasks over its life (two wakers): the completion wake-up belongs to whoever polled last
+                let second = rng.chance(1, 3);
+                let o = ex(log, im, if second { "g.poll2" } else { "g.poll" });
                 let w: usize = field(&o, "wakes").and_then(|x| x.parse().ok()).unwrap_or(0);
-                if o.starts_with("ready") { if !alive.is_empty() { or.fail(format!("shutdown future completed while {} token(s) are alive", alive.len()), log.replay_block(), "C14:early-completion".into()); } last_pending_wakes = None; }
-                else { if alive.is_empty() { or.fail("shutdown future still pending after the last token was dropped".into(), log.replay_block(), "C14:not-completing".into()); } last_pending_wakes = Some(w); }
+                let wb: usize = field(&o, "wb").and_then(|x| x.parse().ok()).unwrap_or(0);
+                if o.starts_with("ready") { if !alive.is_empty() { or.fail(format!("shutdown future completed while {} token(s) are alive", alive.len()), log.replay_block(), "C14:early-completion".into()); } last_pending_wakes = None; last_poller = None; }
+                else { if alive.is_empty() { or.fail("shutdown future still pending after the last token was dropped".into(), log.replay_block(), "C14:not-completing".into()); } last_pending_wakes = Some(w); last_poller = Some((second, if second { wb } else { w - wb })); if second { or.count("polls_with_second_waker"); } }
             } else if !alive.is_empty() {
                 let t = *rng.pick(&alive); alive.retain(|&x| x != t);
                 let o = ex(log, im, &format!("g.drop {t}"));
                 let w: usize = field(&o, "wakes").and_then(|x| x.parse().ok()).unwrap_or(0);
                 if alive.is_empty() { if let Some(at) = last_pending_wakes { if w <= at { or.fail("the last token was dropped after a pending poll, but the shutdown task was not woken".into(), log.replay_block(), "C14:lost-wake".into()); } } }
+                if alive.is_empty() { if let Some((second, at)) = last_poller { let wb: usize = field(&o, "wb").and_then(|x| x.parse().ok()).unwrap_or(0); let mine = if second { wb } else { w - wb };
+                    if mine <= at { or.fail(format!("the last token was dropped; the task that polled the shutdown future last (waker {}) was not woken — the wake-up went to a stale waker", if second { "B" } else { "A" }), log.replay_block(), "C14:stale-waker".into()); } } }
                 else if let Some(at) = last_pending_wakes { if w > at { or.count("spurious_wake_before_last_drop"); } }
             }
         }
